@@ -418,7 +418,10 @@ def run_harness(unit: Unit, h: Harness, ws: Path, logdir: Path, playback=False) 
             p.wait()
             rc = -9
     wall = time.time() - t0
-    out = log_path.read_text(errors="replace")
+    try:
+        out = log_path.read_text(errors="replace")
+    except OSError as e:   # log vanished (disk full, concurrent cleanup): undecided, never a crash
+        out = f"(log unreadable: {e})"
     return classify(unit, h, out, rc, timed_out, wall, str(log_path))
 
 
